@@ -907,6 +907,12 @@ func createStream(n int) {
 				a, b = []byte(`{"w":`+string(a)+`}`), []byte(`{"w":`+string(b)+`}`)
 			}
 		}
+		if chance(0.2) {
+			// insignificant white space around the documents (files end in LF or CRLF)
+			sp := func() string { return pick("", " ", "\n", "\r\n", "\t", "\r", " \r\n \t", "\n\n") }
+			a = []byte(sp() + string(a) + sp())
+			b = []byte(sp() + string(b) + sp())
+		}
 		emitCreate(a, b)
 	}
 }
@@ -1157,15 +1163,16 @@ func validCase(b []byte, full bool) {
 			if !chance(0.3) {
 				partners = partners[:0]
 			}
-			for _, x := range partners {
+			for pi, x := range partners {
 				xb := []byte(x)
+				tag := func(n string) string { return fmt.Sprintf("%s#%d:", n, pi) }
 				var e1, e2 bool
 				s1 := guarded(func() { e1 = jsonpatch.Equal(b, xb) })
 				s2 := guarded(func() { e2 = jsonpatch.Equal(xb, b) })
-				xs = append(xs, "Equal/1:"+s1+b2s(e1), "Equal/2:"+s2+b2s(e2),
-					"MergePatch/1:"+runMerge(false, b, xb).status, "MergePatch/2:"+runMerge(false, xb, b).status,
-					"MergeMergePatches/1:"+runMerge(true, b, xb).status, "MergeMergePatches/2:"+runMerge(true, xb, b).status,
-					"CreateMergePatch/1:"+runCreate(b, xb).status, "CreateMergePatch/2:"+runCreate(xb, b).status)
+				xs = append(xs, tag("Equal/1")+s1+b2s(e1), tag("Equal/2")+s2+b2s(e2),
+					tag("MergePatch/1")+runMerge(false, b, xb).status, tag("MergePatch/2")+runMerge(false, xb, b).status,
+					tag("MergeMergePatches/1")+runMerge(true, b, xb).status, tag("MergeMergePatches/2")+runMerge(true, xb, b).status,
+					tag("CreateMergePatch/1")+runCreate(b, xb).status, tag("CreateMergePatch/2")+runCreate(xb, b).status)
 			}
 			if len(xs) > 0 {
 				fields = append(fields, kv{"apix", strings.Join(xs, ";")})
@@ -1643,6 +1650,25 @@ func cliStream(n int, bin string) {
 		}
 		cmd := exec.Command(bin, args...)
 		cmd.Stdin = bytes.NewReader(doc)
+		// the document arrives through a pipe, from a regular file, or — the empty document — from the
+		// null device (what a service or cron job has as its standard input)
+		if chance(0.06) {
+			doc = nil
+			cmd.Stdin = nil
+			if chance(0.5) {
+				if f, err := os.Open(os.DevNull); err == nil {
+					defer f.Close()
+					cmd.Stdin = f
+				}
+			}
+		} else if chance(0.1) {
+			sp := filepath.Join(dir, fmt.Sprintf("stdin%d.json", i))
+			os.WriteFile(sp, doc, 0o644)
+			if f, err := os.Open(sp); err == nil {
+				defer f.Close()
+				cmd.Stdin = f
+			}
+		}
 		var so, se bytes.Buffer
 		cmd.Stdout = &so
 		cmd.Stderr = &se
@@ -1758,6 +1784,30 @@ func mkPool() *pool {
 		if pt, err := jsonpatch.DecodePatch(t); err == nil {
 			p.patches = append(p.patches, pt)
 			p.ptexts = append(p.ptexts, t)
+		}
+	}
+	if chance(0.3) {
+		// a large value (object or array, well over a kilobyte of text) is stored and later operations of
+		// the same patch walk into it; the patch is then used again and again
+		var ms, es []string
+		for j := 0; j < 30+rng.Intn(30); j++ {
+			ms = append(ms, fmt.Sprintf(`"k%02d":%s`, j, pick(`"`+strings.Repeat("v", 20+rng.Intn(30))+`"`, `[1,2,3,{"n":null}]`, `{"in":{"deep":[true,false]}}`, `1234567890123456789012345678901234567890`)))
+			es = append(es, pick(`"`+strings.Repeat("e", 30)+`"`, `{"x":1,"y":[2]}`, `null`, `12.50`))
+		}
+		big := pick("{"+strings.Join(ms, ",")+"}", "{"+strings.Join(ms, ",")+"}", "["+strings.Join(es, ",")+"]")
+		at := pick("/big", "/a", "/0", "/-")
+		inner := pick("/k00", "/k01/0", "/c", "/0", "/-", "/k02/in")
+		ops := []string{
+			fmt.Sprintf(`{"op":%s,"path":%s,"value":%s}`, pick(`"add"`, `"add"`, `"replace"`), jsonStr(at), big),
+			pick(fmt.Sprintf(`{"op":"add","path":%s,"value":1}`, jsonStr(at+inner)), fmt.Sprintf(`{"op":"remove","path":%s}`, jsonStr(at+inner)),
+				fmt.Sprintf(`{"op":"replace","path":%s,"value":{"r":2}}`, jsonStr(at+inner)), fmt.Sprintf(`{"op":"test","path":%s,"value":1}`, jsonStr(at+inner)),
+				fmt.Sprintf(`{"op":"copy","from":%s,"path":%s}`, jsonStr(at+inner), jsonStr(at+"/copied"))),
+		}
+		t := joinOps(ops)
+		if pt, err := jsonpatch.DecodePatch(t); err == nil {
+			p.patches = append(p.patches, pt)
+			p.ptexts = append(p.ptexts, t)
+			p.docs = append(p.docs, []byte(pick(`{"a":{"x":1},"b":2}`, `[{"k00":1},2]`, `{"big":null}`, `{}`)))
 		}
 	}
 	if len(p.patches) == 0 {
